@@ -6,8 +6,10 @@ LEVEL_TEXT = ('The output-mask/capability algebra of the geodesic and rhumb inte
               'which capability, written set = requested AND capable, NaN return rule, third-point bookkeeping); TLC enumerates constructor x '
               'capabilities x set-operation x arcmode x outmask transitions, checks monotonicity/no-spurious-write invariants on the model, and every '
               'transition is replayed on the series, exact and exact=true line classes with sentinel-filled outputs; TLC validates the written set, NaN '
-              'status, Capabilities(), Distance()/Arc(). Value independence, arc/distance equivalence and third-point laws are validated on seeded random '
-              'geodesics.')
+              'status, Capabilities(), Distance()/Arc(). TLC also enumerates GenInverse / Rhumb::GenInverse over end-point classes x outmasks and every '
+              'inline overload (family x number of output arguments x solver kind x line capabilities, table OverloadOut from the headers). Value '
+              'independence (direct, inverse, rhumb; LONG_UNROLL against wrapping), arc/distance equivalence and third-point laws (DirectLine, '
+              'ArcDirectLine, InverseLine) are validated on seeded random geodesics and rhumb lines.')
 DESIGN_REF = 'DESIGN.md section 4, C12'
 LEVEL_NOTE = 'Trusted: TLC, GeodLine.tla (from the mask enum documentation), sentinel NaN payloads to detect writes.'
 TECHNIQUE = 'TLA+ model of mask/capability algebra + TLC enumeration, spec-to-code replay, TLC trace validation'
@@ -17,6 +19,12 @@ def to_rows(vals):
     rows = []
     k = 0
     for v in vals:
+        if v[0] == 'gi':        # <<"gi", end-point class, solver kind, outmask>>
+            rows.append(['gic', v[1], v[2], v[3]])
+        elif v[0] == 'ri':      # <<"ri", end-point class, exact, outmask>>
+            rows.append(['ric', v[1], v[2], v[3]])
+        elif v[0] == 'ov':      # <<"ov", overload family, number of output arguments, solver kind, caps>>
+            rows.append(['ov', v[1], v[2], v[3], v[4]])
         if v[0] != 'pos':
             continue
         _, ctor, caps, so, am, om = v
@@ -35,7 +43,7 @@ def run(ctx):
     global KINDS
     KINDS = (lambda k: [k % 3]) if ctx.quick else (lambda k: [0, 1, 2])
     cs, ms = (64, 37) if ctx.quick else (8, 5)
-    base = 'INIT Init\nNEXT Next\nCONSTANTS CapsStride = %d MaskStride = %d NChunks = 64\nINVARIANTS PosInv ThirdInv NumInv Emit\nCHECK_DEADLOCK FALSE\n'
+    base = 'INIT Init\nNEXT Next\nCONSTANTS CapsStride = %d MaskStride = %d NChunks = 64\nINVARIANTS PosInv ThirdInv NumInv SolverInv OvInv Emit\nCHECK_DEADLOCK FALSE\n'
     vlib.lattice_pipeline(ctx, 'MC_GeodLine', [('all', base % (cs, ms))], to_rows, 'drv_line', ['replay'],
                           ['record', ctx.seed, 40000 if ctx.quick else 1000000], 'Trace_GeodLine',
                           flavour_record=None if ctx.quick else 'san', parallel_gen=False)
@@ -46,7 +54,9 @@ def run(ctx):
 RULE = ('TLC enumerates <<constructor form, capability set (all 512), set-operation, arcmode, outmask>> transitions (all outmasks for sampled '
         'capability sets, sampled outmasks for all capability sets; everything in the thorough tier with finer strides), all 512 outmasks for '
         'GenDirect/GenInverse of the three geodesic solver kinds and for Rhumb GenDirect/GenInverse/RhumbLine::GenPosition; each is replayed on '
-        'one of three fixed geodesics. distinct_nontrivial = transitions replayed.')
+        'one of three fixed geodesics; GenInverse additionally on 17 end-point classes (coincident, short, meridional, equatorial, antipodal, '
+        'swapped, prolate, sphere) x 512 outmasks x 3 solver kinds, Rhumb::GenInverse on 9 classes x 64 rhumb masks x exact, and every inline '
+        'overload of Direct/ArcDirect/Inverse/Position/ArcPosition and the rhumb Direct/Inverse/Position. distinct_nontrivial = transitions replayed.')
 TRUSTED = ['TLC', 'GeodLine.tla', 'drv_line.cpp (sentinel detection of writes, residual quantisation)']
 
 
